@@ -53,6 +53,7 @@ func main() {
 		os.Exit(2)
 	}
 	c := Load(nil, "")
+	currentProp = *prop
 	fn(c, *tier)
 }
 
